@@ -189,11 +189,17 @@ func (s *Service) parseAddress(address string) error {
 
 	switch s.protocol {
 	case "unix":
+		if s.address == "" {
+			s.protocol = ""
+			return fmt.Errorf("Empty unix address")
+		}
 		break
 	case "tcp":
 		break
 
 	default:
+		s.protocol = ""
+		s.address = ""
 		return fmt.Errorf("Unknown protocol")
 	}
 
@@ -207,9 +213,12 @@ func (s *Service) GetListener() (net.Listener, error) {
 	return l, nil
 }
 
-func (s *Service) setListener(ctx context.Context) error {
+func (s *Service) setListener(ctx context.Context, parseErr error) error {
 	l := activationListener()
 	if l == nil {
+		if parseErr != nil {
+			return parseErr
+		}
 		if s.protocol == "unix" && s.address[0] != '@' {
 			os.Remove(s.address)
 		}
@@ -254,9 +263,9 @@ func (s *Service) Bind(ctx context.Context, address string) error {
 	}
 	s.mutex.Unlock()
 
-	s.parseAddress(address)
+	parseErr := s.parseAddress(address)
 
-	err := s.setListener(ctx)
+	err := s.setListener(ctx, parseErr)
 	if err != nil {
 		return err
 	}
